@@ -8,8 +8,8 @@ STATUSES = ["Equal", "Fixed", "Different", "Failed", "EqualizerFailure"]
 # verdict-level behaviours (the replay itself) and process-level behaviours (what happens to the worker)
 VERDICT_BEH = ["equal", "different", "player_raises", "extractor_raises", "comparator_raises",
                "bare:Fixed", "bare:Failed", "bare:Equal", "bare:EqualizerFailure"]
-PROCESS_BEH = ["exit0", "exit1", "hang", "hang_deaf", "drops", "slow:1", "slow:2", "slow:3", "slow:4", "slow:5"]
-F08_BEH = ["late", "dies_before"]          # known finding F08: probe streams only
+PROCESS_BEH = ["exit0", "exit1", "hang", "hang_deaf", "slow:1", "slow:2", "slow:3", "slow:4", "slow:5"]
+F08_BEH = ["late", "dies_before", "drops"]          # known finding F08 (queues shared by successive workers): probe streams only
 
 MSGS = {"none": "MNone", "cmp": "MCmp", "player": "MPlayer", "extractor": "MExtractor", "comparator": "MComparator",
         "died": "MDied", "timeout": "MTimeout"}
@@ -144,6 +144,8 @@ def f08_sig(case):
         return "F08-late-answer"
     if has(case, ["dies_before"]):
         return "F08-stale-task"
+    if has(case, ["drops"]):
+        return "F08-lock-held"
     return None
 
 
